@@ -12,6 +12,7 @@ Local Open Scope N_scope.
 Definition re_ucdec (s : bytes) (i : nat) : res N :=
   do c <- rdk SUcDec s i;
   if negb (bit c 128 && bit c 64) then Ok c
+  else if Nat.ltb (re_uclen_at s i) (re_ucfull c) then Ok (N.lor 2097152 c)      (* truncated sequence: 0x200000 | c *)
   else if negb (bit c 32) then
     do c1 <- rdk SUcDec s (i + 1);
     Ok (N.lor (N.shiftl (N.land c 31) 6) (N.land c1 63))
@@ -69,11 +70,11 @@ Section Brk.
         else do p' <- adv SOther p (brk_len p); brk_loop k' p' false nt
       else
         do b <- re_ucdec p 0;
-        do p1 <- adv SUcLen p (re_uclen (hd0 p));
+        do p1 <- adv SUcLen p (re_uclen p);
         do ep <- (if (hd0 p1 =? 45) && negb (nthb p1 1 =? 0) && negb (nthb p1 1 =? 93) then
                     let p2 := tl p1 in
                     do e <- re_ucdec p2 0;
-                    do p3 <- adv SUcLen p2 (re_uclen (hd0 p2));
+                    do p3 <- adv SUcLen p2 (re_uclen p2);
                     Ok (e, p3)
                   else Ok (b, p1));
         let '(e, p4) := ep in
@@ -109,7 +110,8 @@ Section Atom.
       else
         do c1 <- re_ucdec a pos;
         do c2 <- re_ucdec line (p0 + pos);
-        if fold icase c1 =? fold icase c2 then chr_icase k' a p0 (pos + re_uclen (nthb a pos))
+        if (fold icase c1 =? fold icase c2) && Nat.eqb (re_uclen_at a pos) (re_uclen_at line (p0 + pos))
+        then chr_icase k' a p0 (pos + re_uclen_at a pos)
         else Ok None
     end.
 
@@ -124,19 +126,21 @@ Section Atom.
     | AAny =>
       do c <- rdk SOther line p;
       if (c =? 0) || ((c =? 10) && newline) then Ok None
-      else if Nat.leb (p + re_uclen c) (length line) then Ok (Some (p + re_uclen c)%nat) else OOB SUcLen
+      else if Nat.leb (p + re_uclen_at line p) (length line) then Ok (Some (p + re_uclen_at line p)%nat) else OOB SUcLen
     | ABrk s =>
       do c <- re_ucdec line p;
       if (c =? 0) || ((c =? 10) && newline && (nthb s 1 =? 94)) then Ok None
       else
         do c0 <- rdk SOther line p;
-        if negb (Nat.leb (p + re_uclen c0) (length line)) then OOB SUcLen
+        if negb (Nat.leb (p + re_uclen_at line p) (length line)) then OOB SUcLen
         else
           do r <- brk_match 2 icase (tl s) c;
-          if r then Ok None else Ok (Some (p + re_uclen c0)%nat)
+          if r then Ok None else Ok (Some (p + re_uclen_at line p)%nat)
     | ABeg =>
       if Nat.eqb p 0 then (if has flg REG_NOTBOL then Ok None else Ok (Some p))
-      else if nthb line (p - 1) =? 10 then (if newline then Ok (Some p) else Ok None)
+      else if nthb line (p - 1) =? 10 then
+        (* return !(rs->flg & REG_NEWLINE) || !rs->s[0];  -- not at the end of the subject *)
+        (do c <- rdk SOther line p; if newline && negb (c =? 0) then Ok (Some p) else Ok None)
       else Ok None
     | AEnd =>
       do c <- rdk SOther line p;
@@ -257,7 +261,7 @@ Fixpoint re_loop (d : nat) (P : list instr) (flg : Z) (line : bytes) (k : nat) (
         | Ok cs =>
           match re_recmatch d P flg line s with
           | (Found _ r, c) => (Ok (Some r), c)
-          | (Fail, c) => let '(x, c') := re_loop d P flg line k' s (s + re_uclen cs) in (x, c + c')
+          | (Fail, c) => let '(x, c') := re_loop d P flg line k' s (s + re_uclen_at line s) in (x, c + c')
           | (Abort, c) => (NoFuel, c)
           | (OobO w, c) => (OOB w, c)
           end
